@@ -1,11 +1,57 @@
 /*UNIT
-{"props": ["C07", "C01", "C15"], "src": ["lib/ringbuffer.c"], "spec": ["ringbuffer.spec"], "tags": ["nooverwrite"], "mode": "plain",
- "kind": "proved", "functions": ["qb_rb_chunk_read", "_rb_chunk_reclaim (inlined)", "qb_rb_chunk_step (inlined)"],
- "restrict_fp": ["qb_rb_chunk_read.function_pointer_call.1/verif_timedwait_fn", "qb_rb_chunk_read.function_pointer_call.2/verif_post_fn",
-                 "qb_rb_chunk_read.function_pointer_call.3/verif_post_fn", "_rb_chunk_reclaim.function_pointer_call.1/verif_reclaim_fn"],
- "stubs": ["memcpy (witness form: bounds asserted, one arbitrary byte copied)"],
- "drops": ["qb_util_log/qb_util_perror diagnostics compiled out (stubs/nolog.h)"],
- "expect_classes": ["assertion"], "timeout": 300}
+{
+ "props": [
+  "C07",
+  "C01",
+  "C15"
+ ],
+ "src": [
+  "lib/ringbuffer.c"
+ ],
+ "spec": [
+  "ringbuffer.spec"
+ ],
+ "tags": [
+  "nooverwrite"
+ ],
+ "mode": "plain",
+ "kind": "proved",
+ "functions": [
+  "qb_rb_chunk_read",
+  "_rb_chunk_reclaim (inlined)",
+  "qb_rb_chunk_step (inlined)"
+ ],
+ "restrict_fp": [
+  "qb_rb_chunk_read.function_pointer_call.1/verif_timedwait_fn",
+  "qb_rb_chunk_read.function_pointer_call.2/verif_post_fn",
+  "qb_rb_chunk_read.function_pointer_call.3/verif_post_fn",
+  "_rb_chunk_reclaim.function_pointer_call.1/verif_reclaim_fn"
+ ],
+ "stubs": [
+  "memcpy (witness form: bounds asserted, one arbitrary byte copied)"
+ ],
+ "drops": [
+  "qb_util_log/qb_util_perror diagnostics compiled out (stubs/nolog.h)"
+ ],
+ "expect_classes": [
+  "assertion"
+ ],
+ "timeout": 300,
+ "variants": [
+  {
+   "vname": "chain",
+   "defines": [
+    "-DV_CHAIN"
+   ]
+  },
+  {
+   "vname": "anydata",
+   "defines": [
+    "-DV_ANYDATA"
+   ]
+  }
+ ]
+}
 */
 /* qb_rb_chunk_read(buf, len) with no notifier, arbitrary ring contents at read_pt:
  *  - nothing published at read_pt (empty ring, allocated-not-committed, consumed) -> -ETIMEDOUT, nothing changes;
@@ -30,13 +76,22 @@ void harness(void)
 	ASSUME(buf != NULL);
 	rb->shared_data[r] = nd_size;
 	rb->shared_data[wrap(ws, r + 1)] = nd_magic;
+#ifdef V_CHAIN
 	/* chunk validity (instance of the chain invariant at read_pt): a published chunk fits the ring */
 	ASSUME(nd_magic != MAGIC || nd_size <= 4 * ws - 12);
+#else
+	/* C15: ring contents come from an arbitrary file: NO validity assumption on the header words; the
+	 * ring is at least one page (1024 words) and the caller's buffer at most 4096 bytes (the blackbox
+	 * printer uses 1024): every size the header can claim is either refused or copied from inside the mapping */
+	ASSUME(ws >= 1024 && nd_buflen <= 4096);
+#endif
 	/* witness payload byte */
 	char *payload = (char *)&rb->shared_data[wrap(ws, r + 2)];
+#ifdef V_CHAIN
 	if (nd_magic == MAGIC && nd_off < nd_size) {
 		payload[nd_off] = (char)nd_byte;
 	}
+#endif
 	verif_memcpy_wit = nd_off;
 
 	ssize_t rc = qb_rb_chunk_read(rb, buf, nd_buflen, nd_timeout);
@@ -53,12 +108,17 @@ void harness(void)
 		POST(verif_memcpy_calls == 0, "too-small buffer: nothing copied");
 	} else {
 		COVER(nd_size == 0); COVER(nd_size % 4 != 0); COVER((uint64_t)r + spec_chunk_words(nd_size) >= ws); COVER(nd_buflen == nd_size);
+#ifdef V_CHAIN
 		POST(rc == (ssize_t)nd_size, "read returns the committed length");
 		if (nd_off < nd_size) {
 			POST(buf[nd_off] == (char)nd_byte, "read returns the chunk's bytes (witness byte)");
 		}
 		POST(rb->shared_hdr->read_pt == spec_step(ws, r, nd_size), "read consumes exactly one chunk");
 		POST(rb->shared_data[r] == 0 && rb->shared_data[wrap(ws, r + 1)] == MAGIC_DEAD, "a consumed chunk cannot be read again");
+#else
+		POST(rc >= 0 && (size_t)rc <= nd_buflen, "whatever the file's chunk header claims, read returns at most the caller's buffer length");
+		POST(rb->shared_hdr->read_pt < ws, "read_pt stays inside the ring for any chunk header");
+#endif
 	}
 	POST(rb->shared_hdr->write_pt == w, "read never moves write_pt");
 }
